@@ -138,3 +138,23 @@ func vh_C13_batch_malformed_entries() {
 	vAssert(vIsNilErr(r.err) && len(r.valid) == n, "malformed entries are not an error")
 	vAssert(!r.valid[pos] && !r.ok, "the malformed entry reports false")
 }
+
+// C09 (batch call sites): in default mode VerifyBatch applies the small-order exclusion to the key and the R of
+// the entry being examined, in every chunk (n = 68: second chunk with the first one replicated), exactly as the
+// single verifier does; with ZIP-215 it does not.
+func vh_C09_batch_small_order_gate() {
+	n := 5
+	vReplicate = 0
+	if vCase(0, 1) == 1 {
+		n = 68
+		vReplicate = 64
+	}
+	r := vBatchRun(n, -1, 0, 0)
+	if !r.entropyOK {
+		return
+	}
+	vReach("batch verified")
+	for i := 0; i < n; i++ {
+		vAssert(r.valid[i] == vsVerifyPredicate(r.es[i].pk, r.es[i].msg, r.es[i].sig, 0, "", r.zip), "entry verdict == documented predicate (small-order gate on this entry's key and R)")
+	}
+}
